@@ -42,8 +42,18 @@ func sharedReceiver(p *ssa.Parameter) bool {
 	return ok && (n.Obj().Name() == "API" || n.Obj().Name() == "Client")
 }
 
+type regionBind struct {
+	r region
+	w string
+}
+
 // regionOf: provenance typing of an address / reference value.
-func regionOf(v ssa.Value, depth int) (region, string) {
+func regionOf(v ssa.Value, depth int) (region, string) { return regionOfIn(v, depth, nil) }
+
+// regionOfIn: the same inside a callee of the package whose parameters are
+// bound to the regions of the caller's arguments.
+func regionOfIn(v ssa.Value, depth int, bind map[*ssa.Parameter]regionBind) (region, string) {
+	regionOf := func(v ssa.Value, depth int) (region, string) { return regionOfIn(v, depth, bind) }
 	if depth > 12 {
 		return regUnknown, "provenance too deep"
 	}
@@ -55,6 +65,9 @@ func regionOf(v ssa.Value, depth int) (region, string) {
 	case *ssa.Parameter:
 		if sharedReceiver(x) {
 			return regShared, "field of the shared receiver " + x.Name()
+		}
+		if b, ok := bind[x]; ok {
+			return b.r, b.w
 		}
 		return regArg, "argument " + x.Name()
 	case *ssa.FreeVar:
@@ -100,6 +113,35 @@ func regionOf(v ssa.Value, depth int) (region, string) {
 		// results of calls: fresh values (constructors, append, library functions)
 		if bi, ok := x.Call.Value.(*ssa.Builtin); ok && bi.Name() == "append" {
 			return regionOf(x.Call.Args[0], depth+1)
+		}
+		// a function of the same package: what it returns, with its parameters
+		// standing for the caller's arguments (a helper method on the shared
+		// receiver that returns a fresh object returns a fresh object)
+		if g := x.Call.StaticCallee(); g != nil && len(g.Blocks) > 0 && g.Pkg != nil && x.Parent() != nil && g.Pkg == x.Parent().Pkg && depth < 8 {
+			nb := map[*ssa.Parameter]regionBind{}
+			for i, p := range g.Params {
+				if i < len(x.Call.Args) {
+					r, w := regionOf(x.Call.Args[i], depth+1)
+					nb[p] = regionBind{r, w}
+				}
+			}
+			worst, why := regPrivate, "result of a call that returns fresh data"
+			for _, b := range g.Blocks {
+				ret, ok := b.Instrs[len(b.Instrs)-1].(*ssa.Return)
+				if !ok {
+					continue
+				}
+				for _, rv := range ret.Results {
+					if !refType(rv.Type()) {
+						continue
+					}
+					r, w := regionOfIn(rv, depth+2, nb)
+					if r > worst {
+						worst, why = r, "result of "+g.Name()+": "+w
+					}
+				}
+			}
+			return worst, why
 		}
 		// a call result lives at most where its reference arguments live:
 		// pool.Get(), cache lookups, accessors of shared objects
